@@ -34,6 +34,14 @@ def check(run):
     if err:
         run.add_corr_break("D: " + err)
         cases = []
+    # self-test: a small slice of what the violation search would run (its seed, both families), on every run
+    st_cases, st_err = base.run_harness(PROP, "TestVerif_C08", 30, run.seed + 7919, run.tier + "_st", files=files(), n2=15)
+    if st_err:
+        run.add_corr_break("D: search self-test: " + st_err)
+        st_cases = []
+    for c in st_cases:
+        c["id"] = "st%s" % c["id"]
+    cases = cases + st_cases
     feats, distinct, ops = base.digest(PROP, run, cases, "C08:")
     if cases:
         base.correspond(PROP, run, cases, run.tier)
@@ -46,6 +54,7 @@ def check(run):
         "features": feats, "ops": ops, "zero_copy_results_tracked": held,
         "total_ops": sum(len(c["ops"]) for c in cases),
         "level_ii_histories": sum(1 for c in cases if c.get("mode") == "c08s"),
+        "search_selftest_histories": len(st_cases),
         "level_ii_note": "real session pairs, every flush through the socket fallback, the reader keeps ReadBytes/Peek results of "
                          "fallback (heap) slices while later events arrive on the connection; model evaluated with cfg = []",
     })
